@@ -732,3 +732,11 @@ def instances(tier):       # noqa: F811
     from .c14 import integration_pa_bounded_instance
     return _instances_before_degenerate(tier) + [integration_pa_bounded_instance('C01'), masked_underflow_pinned_instance(), fit_predict_degenerate_bounded_instance(), fit_predict_degenerate_bounded_instance(pinned='cacg-zero-bin'),
                                                   fit_predict_degenerate_bounded_instance(pinned='cbmm-few-frames')]
+
+
+_instances_before_simplex = instances
+
+
+def instances(tier):       # noqa: F811
+    from .common import simplex_lemma_instances
+    return _instances_before_simplex(tier) + simplex_lemma_instances('C01')
